@@ -162,7 +162,7 @@ Rmw2(r) ==
 
 Step(r) == Call(r) \/ Enter(r) \/ Leave(r) \/ Push(r) \/ Check(r) \/ Pop(r) \/ Op(r) \/ AppendStep(r) \/ ReadA(r) \/ ReadB(r) \/ Rmw1(r) \/ Rmw2(r)
 Next == \E r \in Reqs : Step(r) /\ UNCHANGED mix
-Spec == Init /\ [][Next]_vars /\ \A r \in 1..3 : WF_vars(r \in Reqs /\ Step(r))
+Spec == Init /\ [][Next]_vars /\ \A r \in 1..4 : WF_vars(r \in Reqs /\ Step(r))
 
 \* ---- properties ------------------------------------------------------------------------------------
 Done(r) == pc[r] = "done"
